@@ -262,11 +262,153 @@ def bad_args(x, p):
                 'an error', err == 'LuaBuildError', info=str(err))
 
 
+POSITIONS = [
+    ('stat', b'%s\n'), ('local', b'local z=%s\n'),
+    ('if-body', b'if a then %s end\n'),
+    ('elseif-body', b'if a then x=2 elseif b then %s end\n'),
+    ('else-body', b'if a then x=2 else %s end\n'),
+    ('if-cond', b'if %s then x=2 end\n'),
+    ('elseif-cond', b'if a then x=2 elseif %s then x=3 end\n'),
+    ('short-if', b'if (a) %s\n'), ('short-if-else', b'if (a) x=2 else %s\n'),
+    ('short-if-cond', b'if (%s) x=2\n'),
+    ('while-body', b'while a do %s end\n'),
+    ('while-cond', b'while %s do break end\n'),
+    ('repeat-body', b'repeat %s until a\n'),
+    ('until-cond', b'repeat x=2 until %s\n'),
+    ('for-body', b'for i=1,2 do %s end\n'),
+    ('for-bound', b'for i=1,%s do end\n'),
+    ('for-step', b'for i=1,2,%s do end\n'),
+    ('for-in-body', b'for k,v in pairs(t) do %s end\n'),
+    ('for-in-exp', b'for k in pairs(%s) do end\n'),
+    ('do-body', b'do %s end\n'), ('function-body', b'function g() %s end\n'),
+    ('local-function-body', b'local function g() %s end\n'),
+    ('method-body', b'function o:m() %s end\n'),
+    ('table-item', b't={1,%s}\n'), ('table-named', b't={a=%s}\n'),
+    ('table-key', b't={[%s]=1}\n'), ('index', b't[%s]=1\n'),
+    ('index-rhs', b'z=t[%s]\n'), ('binop-right', b'z=1+%s\n'),
+    ('binop-left', b'z=%s+1\n'), ('unop', b'z=#%s\n'),
+    ('and-or', b'z=a and %s or b\n'), ('paren', b'z=(%s)\n'),
+    ('second-value', b'a,b=1,%s\n'), ('method-arg', b'o:m(1,%s)\n'),
+    ('nested-call-arg', b'f(g(%s))\n'), ('compound', b'z+=%s\n'),
+    ('print-shorthand', b'?%s\n'),
+    ('return-in-function', b'function g() return %s end\n'),
+    ('nested-blocks', b'for i=1,2 do if a then while b do %s end end end\n'),
+]
+
+
+def positions(x, p):
+    """A require() call in every syntactic position of the main program
+    (statement bodies, conditions, bounds, table fields, operands,
+    arguments): the package is found and embedded once."""
+    pos, tmpl = x.choice('position', POSITIONS)
+    ugl_form = x.choice('use_game_loop', ['absent', 'true'])
+    opt = {'absent': b'', 'true': b',{use_game_loop=true}'}[ugl_form]
+    call = b'require("p1"' + opt + b')'
+    main = b'y=0\n' + tmpl.replace(b'%s', call) + b'x=1\n'
+    t1 = b'function f() end\n' + GL + b'g=2\n'
+    files = {'/w/r/p1.lua': t1}
+    opened = []
+
+    def fake_open(path, mode='r', *a, **k):
+        opened.append(path)
+        return hx.MemStream(files[path])
+    hx.patch(x, os.path, 'isfile', lambda path: path in files)
+    hx.patch(x, builtins, 'open', fake_open)
+    try:
+        main_lua = lua.Lua.from_lines([main], version=8)
+    except Exception as e:
+        x.check('the main program parses', False, info=pos + ' ' + repr(e))
+        return
+    package_lua = {}
+    try:
+        build._evaluate_require(main_lua, file_path='/w/r/main.lua',
+                                package_lua=package_lua, lua_path=None)
+        built = build._prepend_package_lua(main_lua, package_lua)
+    except Exception as e:
+        x.check('a require() in this position builds', False,
+                info=pos + ' ' + repr(e)[:160])
+        return
+    code = b''.join(built.to_lines())
+    x.out('code', code)
+    body = t1 if ugl_form == 'true' else b'function f() end\ng=2\n'
+    exp = b'package={loaded={},_c={}}\npackage._c["p1"]=function()\n' + \
+        body + b'end\n' + b''.join(build.REQUIRE_LUA_PREAMBLE_REQUIRE) + main
+    x.check('the package file is read exactly once', opened ==
+            ['/w/r/p1.lua'], info=pos)
+    x.check('a require() in any syntactic position is found and its package '
+            'embedded once before the loader and the unchanged main program',
+            sig_tokens(code) == sig_tokens(exp), info=pos)
+
+
+def names(x, p):
+    """The required name is a Lua string: whatever characters it holds, the
+    package table defines exactly that name (the key is written as a string
+    literal denoting the same bytes)."""
+    n = p['n']
+    name = x.bytes('name', n)
+    for k in range(n):
+        c = name[k]
+        x.assume(And(c >= 32, c <= 126, c != 46, c != 47, c != 63, c != 59,
+                     c != 126))
+    q = x.choice('quote', [b'"', b"'"])
+    lit = b''
+    for k in range(n):
+        c = name[k]
+        if c == 92:
+            lit += b'\\\\'
+        elif c == q[0]:
+            lit += b'\\' + q
+        else:
+            lit += name[k:k + 1]
+    main = b'local p=require(' + q + lit + q + b')\nx=1\n'
+    fname = '/w/r/' + str(name, 'latin-1') + '.lua'
+    t1 = b'g=2\n'
+    hx.patch(x, os.path, 'isfile', lambda path: path == fname)
+    hx.patch(x, builtins, 'open',
+             lambda path, mode='r', *a, **k: hx.MemStream(t1))
+    if x.symbolic:
+        from symx import sympath
+        sympath.install_stubs()
+    try:
+        main_lua = lua.Lua.from_lines([main], version=8)
+        req = [t for t in main_lua.tokens if isinstance(t, lexer.TokString)]
+    except Exception as e:
+        x.check('the main program lexes', False, info=repr(e))
+        return
+    x.check('harness: the literal denotes the name',
+            And(len(req) == 1, req[0].value == name))
+    # (a dictionary that compares symbolic keys by equality, not by hash)
+    package_lua = rt.SDict() if x.symbolic else {}
+    try:
+        build._evaluate_require(main_lua, file_path='/w/r/main.lua',
+                                package_lua=package_lua, lua_path=None)
+        built = build._prepend_package_lua(main_lua, package_lua)
+    except Exception as e:
+        x.check('a package whose name has unusual characters builds', False,
+                info=repr(e)[:160])
+        return
+    toks = [t for t in built.tokens if not isinstance(
+        t, (lexer.TokSpace, lexer.TokNewline, lexer.TokComment))]
+    keys = []
+    for k in range(len(toks) - 3):
+        if toks[k].matches(lexer.TokName(b'_c')) and \
+                toks[k + 1].matches(lexer.TokSymbol(b'[')) and \
+                isinstance(toks[k + 2], lexer.TokString) and \
+                toks[k + 3].matches(lexer.TokSymbol(b']')):
+            keys.append(toks[k + 2].value)
+    x.out('nkeys', len(keys))
+    x.check('the package table defines exactly the required name, once',
+            And(len(keys) == 1, keys[0] == name))
+
+
 Q = {'_budget': 900}
 HARNESSES = [
     Harness('graph', graph, quick=[dict(Q), dict(Q, sub='lib/', gl2=True)],
             thorough=[dict(Q), dict(Q, sub='lib/', gl2=True),
                       dict(Q, cycle=True, gl2=True)]),
     Harness('bad_args', bad_args, quick=[Q]),
+    Harness('positions', positions, quick=[Q]),
+    Harness('names', names, quick=[dict(Q, n=1), dict(Q, n=2)],
+            thorough=[dict(Q, n=1), dict(Q, n=2), dict(Q, n=3)]),
     Harness('cli', cli, quick=[Q]),
 ]
